@@ -154,20 +154,18 @@ def _amean_stub(meas, weights=None, high=None, low=None):
             fns=[UK + "UnscentedKalmanFilter.update", UK + "UnscentedKalmanFilter.forecast", UK + "UnscentedKalmanFilter.calculateMeasurementMatrix",
                  UK + "UnscentedKalmanFilter.calcMeasurementMean", M + "residuals", M + "residual"], mode="R",
             bounded="state dimension 1, one angular measurement component (window [0, 2pi)), 3 sigma points; all values symbolic",
-            note="modular (wrap helpers and angularMean by their proved contracts): in the real UKF update the angular innovation and every sigma-point measurement residual lie in (-pi, pi], and adding any whole number of turns to the measured angle leaves the posterior estimate and covariance unchanged", **NORM)
+            note="modular (wrap helpers and angularMean by their proved contracts): in the real UKF update - whatever angular flags, noise matrix and residuals an earlier update of the same stacked size left in the filter - the angular innovation and every sigma-point measurement residual lie in (-pi, pi], and adding any whole number of turns to the measured angle leaves the posterior estimate and covariance unchanged", **NORM)
 def ukf_innovation(vc):
     from resonaate.physics.measurements import IsAngle
     from pyvc import shims
-    if not vc.symbolic:
-        for n in ("O-C16-innov.range", "O-C16-innov.turns-posterior", "O-C16-innov.sigma-residual-range"):
-            vc.ensure(n, True)
-        return
-    vc.stub(M + "wrapAngle2Pi", common.WRAP2PI)
-    vc.stub(M + "wrapAngleNegPiPi", common.WRAPPI)
-    vc.stub(M + "angularMean", _amean_stub)
-    vc.stub(UK + "@julianDateToDatetime", lambda jd: jd)
-    vc.stub(UK + "@JulianDate", lambda jd: jd)
-    vc.stub("resonaate.estimation.sequential_filter:SequentialFilter._debugChecks", lambda self, obs: None)
+    dt = object if vc.symbolic else float
+    if vc.symbolic:
+        vc.stub(M + "wrapAngle2Pi", common.WRAP2PI)
+        vc.stub(M + "wrapAngleNegPiPi", common.WRAPPI)
+        vc.stub(M + "angularMean", _amean_stub)
+        vc.stub(UK + "@julianDateToDatetime", lambda jd: jd)
+        vc.stub(UK + "@JulianDate", lambda jd: jd)
+        vc.stub("resonaate.estimation.sequential_filter:SequentialFilter._debugChecks", lambda self, obs: None)
     px = vc.real("px", -10, 10)
     pl = vc.real("pl", 0.05, 3)
     Hh = vc.angle("H", -2, 2)  # angle per unit of state
@@ -183,27 +181,42 @@ def ukf_innovation(vc):
         def calculateMeasurement(self, sensor_eci, state, utc, noisy=False):
             return {"azimuth_rad": Hh * state[0]}
 
+    stale = [vc.real(f"stale{i}", -50, 50) for i in range(5)]
+
     def run(yval):
-        P = np.array([[pl * pl]], dtype=object)
-        shims.register_cholesky(P, np.array([[pl]], dtype=object))
-        C = vc.cls(UK + "UnscentedKalmanFilter")
-        f = object.__new__(C)
-        vc.fn(UK + "UnscentedKalmanFilter.__init__")(f, 1, 0.0, np.array([px], dtype=object), P, None, np.array([[0.0]], dtype=object), None, False, False, True, alpha, 2.0, kappa)
-        f.pred_x, f.pred_p = np.array([px], dtype=object), P
-        f.sigma_points = np.zeros((1, 3), dtype=object)
-        f.sigma_x_res = np.zeros((1, 3), dtype=object)
-        ob = _NS(julian_date=2459000.5, sensor_eci=None, measurement=Meas(), r_matrix=np.array([[rl * rl]], dtype=object), measurement_states=np.array([yval], dtype=object))
+        P = np.array([[pl * pl]], dtype=dt)
+        if vc.symbolic:
+            shims.register_cholesky(P, np.array([[pl]], dtype=object))
+            C = vc.cls(UK + "UnscentedKalmanFilter")
+            f = object.__new__(C)
+            vc.fn(UK + "UnscentedKalmanFilter.__init__")(f, 1, 0.0, np.array([px], dtype=object), P, None, np.array([[0.0]], dtype=object), None, False, False, True, alpha, 2.0, kappa)
+        else:
+            from resonaate.estimation.kalman.unscented_kalman_filter import UnscentedKalmanFilter
+            f = UnscentedKalmanFilter(1, 0.0, np.array([px]), P, None, np.array([[0.0]]), None, False, False, True, alpha, 2.0, kappa)
+            f._debugChecks = lambda obs: None
+        f.pred_x, f.pred_p = np.array([px], dtype=dt), P
+        f.sigma_points = np.zeros((1, 3), dtype=dt)
+        f.sigma_x_res = np.zeros((1, 3), dtype=dt)
+        # multi-step sequences: an earlier update of the same stacked size with a linear component left these behind
+        f.is_angular = np.array([False])
+        f.r_matrix = np.array([[stale[0]]], dtype=dt)
+        f.mean_pred_y = np.array([stale[1]], dtype=dt)
+        f.sigma_y_res = np.array([stale[2:5]], dtype=dt)
+        ob = _NS(julian_date=2459000.5, sensor_eci=None, measurement=Meas(), r_matrix=np.array([[rl * rl]], dtype=dt), measurement_states=np.array([yval], dtype=dt))
         f.update([ob])
         return f
     # staged: the wrapped measured angle is the same for y and y + 2*pi*k (same uninterpreted applications as in the body)
-    vc.cut("O-C16-innov.turns-posterior", common.WRAP2PI(y + 2 * vc.pi * k) == common.WRAP2PI(y))
+    if vc.symbolic:
+        vc.cut("O-C16-innov.turns-posterior", common.WRAP2PI(y + 2 * vc.pi * k) == common.WRAP2PI(y))
     f0 = run(y)
     f1 = run(y + 2 * vc.pi * k)
-    vc.cut("O-C16-innov.turns-posterior", vc.eq(f1.innovation, f0.innovation))
+    if vc.symbolic:
+        vc.cut("O-C16-innov.turns-posterior", vc.eq(f1.innovation, f0.innovation))
     pi = vc.pi
     vc.ensure("O-C16-innov.range", vc.And(f0.innovation[0] > -pi, f0.innovation[0] <= pi))
     vc.ensure("O-C16-innov.sigma-residual-range", vc.And(*[vc.And(r > -pi, r <= pi) for r in f0.sigma_y_res[0]]))
-    vc.ensure("O-C16-innov.turns-posterior", vc.And(vc.eq(f1.innovation, f0.innovation), vc.eq(f1.est_x, f0.est_x), vc.eq(f1.est_p, f0.est_p)))
+    tol = 0 if vc.symbolic else 1e-6
+    vc.ensure("O-C16-innov.turns-posterior", vc.And(vc.eq(f1.innovation, f0.innovation, tol), vc.eq(f1.est_x, f0.est_x, tol), vc.eq(f1.est_p, f0.est_p, tol)))
 
 
 class _NS:
